@@ -324,6 +324,8 @@ pub const SCALARS: &[&str] = &["f64", "f32", "nested", "nestedvec"];
 pub const DIMS1: &[&str] = &["S1", "S2", "S3", "S4", "S5", "S6", "S8", "S10", "S16", "Dyn", "Dyn"];
 /// (outputs x inputs) for jacobian, (x x y) for partial_hessian
 pub const DIMS2: &[&str] = &["S1xS1", "S2xS3", "S3xS2", "S1xS4", "S4xS1", "S3xS3", "DynxDyn", "S2xDyn", "DynxS3"];
+/// a large statically sized shape (the result matrix alone is 19 kB for f64): size-gated code paths
+pub const BIG_STATIC2: &str = "S40xS60";
 
 pub fn static_len(d: &str) -> Option<usize> {
     d.strip_prefix('S').and_then(|n| n.parse().ok())
@@ -396,6 +398,7 @@ macro_rules! by_scalar_dim2 {
             ("f64", "S1xS4") => $f::<f64, f64, Const<1>, Const<4>>($($arg),*),
             ("f64", "S4xS1") => $f::<f64, f64, Const<4>, Const<1>>($($arg),*),
             ("f64", "S3xS3") => $f::<f64, f64, Const<3>, Const<3>>($($arg),*),
+            ("f64", "S40xS60") => $f::<f64, f64, Const<40>, Const<60>>($($arg),*),
             ("f64", "DynxDyn") => $f::<f64, f64, Dyn, Dyn>($($arg),*),
             ("f64", "S2xDyn") => $f::<f64, f64, Const<2>, Dyn>($($arg),*),
             ("f64", "DynxS3") => $f::<f64, f64, Dyn, Const<3>>($($arg),*),
@@ -405,6 +408,7 @@ macro_rules! by_scalar_dim2 {
             ("f32", "S1xS4") => $f::<f32, f32, Const<1>, Const<4>>($($arg),*),
             ("f32", "S4xS1") => $f::<f32, f32, Const<4>, Const<1>>($($arg),*),
             ("f32", "S3xS3") => $f::<f32, f32, Const<3>, Const<3>>($($arg),*),
+            ("f32", "S40xS60") => $f::<f32, f32, Const<40>, Const<60>>($($arg),*),
             ("f32", "DynxDyn") => $f::<f32, f32, Dyn, Dyn>($($arg),*),
             ("f32", "S2xDyn") => $f::<f32, f32, Const<2>, Dyn>($($arg),*),
             ("f32", "DynxS3") => $f::<f32, f32, Dyn, Const<3>>($($arg),*),
@@ -419,7 +423,9 @@ macro_rules! by_scalar_dim2 {
             ("nested", "S4xS1") => $f::<Dual64, f64, Const<4>, Const<1>>($($arg),*),
             ("nestedvec", "S4xS1") => $f::<DualDVec64, f64, Const<4>, Const<1>>($($arg),*),
             ("nested", "S3xS3") => $f::<Dual64, f64, Const<3>, Const<3>>($($arg),*),
+            ("nested", "S40xS60") => $f::<Dual64, f64, Const<40>, Const<60>>($($arg),*),
             ("nestedvec", "S3xS3") => $f::<DualDVec64, f64, Const<3>, Const<3>>($($arg),*),
+            ("nestedvec", "S40xS60") => $f::<DualDVec64, f64, Const<40>, Const<60>>($($arg),*),
             ("nested", "DynxDyn") => $f::<Dual64, f64, Dyn, Dyn>($($arg),*),
             ("nestedvec", "DynxDyn") => $f::<DualDVec64, f64, Dyn, Dyn>($($arg),*),
             ("nested", "S2xDyn") => $f::<Dual64, f64, Const<2>, Dyn>($($arg),*),
